@@ -1074,6 +1074,7 @@ func runC07(c *core.Ctx) core.Meta {
 	checkNoDegenerateChoice(c, "R07.14", "In the timing wavefront the choice is between the scalar and the vector register offset of the wavefront: with the scalar one on both arms, vector registers written through that path land at the scalar offset, in another wavefront's registers, and are not read back.", 0, NewPkgInfo(c, wfPkg), NewPkgInfo(c, cuPkg))
 	checkRegisterFileOffsetPairing(c, "R07.15")
 	checkInitRegistersMirrored(c, "R07.16")
+	checkHalfRegisterCases(c)
 	return core.Meta{Level: "other",
 		Explanation: "Aliasing shapes of the architectural register stores decided statically: half-register merges (mask/shift agreement, LO/HI context) and half reads in all five accessors, the (register kind, count) coverage of the five accessors evaluated as decision tables and compared as siblings, vector-register strides of emulation versus the timing register file and its builder constants, the multi-register width rule, and the range cleared at wavefront release.",
 		NotDecided:  "read-after-write equality over all access sequences (value level); bounds of register indices; SGPR/VGPR allocation offsets",
